@@ -405,6 +405,33 @@ fn run_inner(sc: &J) -> Result<Option<String>, String> {
             let compressed = buf.clone();
             match codec.decompress(&mut buf) { Ok(()) if buf == payload => Ok(None), Ok(()) => Ok(Some(format!("decompress(compress(x)) != x for |x| = {}", payload.len()))), Err(e) => Ok(Some(format!("decompress rejects compress(x) (|x| = {}, compressed {:02x?}): {e}", payload.len(), compressed))) }
         }
+        // C12/C18: Rabin digest of `data` (hex) == CRC-64-AVRO per the specification, little-endian; and the single-object
+        // header of a schema = C3 01 ++ that fingerprint of its canonical form
+        "rabin_vs_ref" => {
+            use apache_avro::rabin::Rabin;
+            let data = jhex(sc, "data");
+            let mut d = <Rabin as digest::Digest>::new();
+            digest::Digest::update(&mut d, &data);
+            let got = digest::Digest::finalize(d).to_vec();
+            let want = rf::crc64avro(&data).to_le_bytes().to_vec();
+            if got != want { return Ok(Some(format!("Rabin({:02x?}) = {:02x?}, specification says {:02x?}", data, got, want))); }
+            Ok(None)
+        }
+        "single_object_header" => {
+            let schema = Schema::parse_str(sc["schema"].as_str().ok_or("schema")?).map_err(|e| e.to_string())?;
+            let canon = schema.canonical_form();
+            let want: Vec<u8> = [0xC3u8, 0x01].iter().copied().chain(rf::crc64avro(canon.as_bytes()).to_le_bytes()).collect();
+            let mut w = apache_avro::GenericSingleObjectWriter::new_with_capacity(&schema, 16).map_err(|e| e.to_string())?;
+            let mut out = Vec::new();
+            let v = crate::dsl(&sc["value"])?;
+            w.write_value_ref(&v, &mut out).map_err(|e| e.to_string())?;
+            if out.len() < 10 || out[..10] != want[..] { return Ok(Some(format!("message starts with {:02x?}, the specification's header for this schema is {:02x?}", &out[..out.len().min(10)], want))); }
+            // every single-bit alteration of the header and every truncation must be rejected
+            let rd = apache_avro::GenericSingleObjectReader::builder().schema(schema.clone()).build().map_err(|e| e.to_string())?;
+            for bit in 0..80 { let mut m = out.clone(); m[bit / 8] ^= 1 << (bit % 8); if rd.read_value(&mut &m[..]).is_ok() { return Ok(Some(format!("message with header bit {bit} flipped is accepted"))); } }
+            for cut in 0..10 { if rd.read_value(&mut &out[..cut]).is_ok() { return Ok(Some(format!("message cut to {cut} bytes is accepted"))); } }
+            match rd.read_value(&mut &out[..]) { Ok(back) if back == v => Ok(None), other => Ok(Some(format!("message does not read back: {other:?}"))) }
+        }
         k => Err(format!("unknown scenario kind {k:?}")),
     }
 }
